@@ -367,11 +367,11 @@ def c18(tier, seed):
         if tier == "quick":
             # the small families (source below 600 kB) also go through the release CLI in the quick tier
             naija = build("cli-rel")
-            res.absorb(run_engine(rel, "limits", 64, seed, {"skip-slow": 1, "naija": naija, "scratch": scratch, "cli-max-source": 600000}, nshards=11, build_name="rel+cli-rel", timeout_case=900))
+            res.absorb(run_engine(rel, "limits", 64, seed, {"skip-slow": 1, "naija": naija, "scratch": scratch, "cli-max-source": 600000}, nshards=12, build_name="rel+cli-rel", timeout_case=900))
         else:
             naija = build("cli-rel")
-            res.absorb(run_engine(rel, "limits", 64, seed, {"naija": naija, "scratch": scratch}, nshards=11, build_name="rel+cli-rel", timeout_case=1800))
-            res.absorb(run_engine(build("dbg"), "limits", 64, seed, {}, nshards=11, build_name="dbg", timeout_case=3600))
+            res.absorb(run_engine(rel, "limits", 64, seed, {"naija": naija, "scratch": scratch}, nshards=12, build_name="rel+cli-rel", timeout_case=1800))
+            res.absorb(run_engine(build("dbg"), "limits", 64, seed, {}, nshards=12, build_name="dbg", timeout_case=3600))
         dense = run_engine(rel, "limits", 64, seed, {"stage": "dense", "dense-max": 420 if tier == "quick" else 1000}, nshards=16, build_name="rel", timeout_case=1800)
         res.absorb(dense)
     finally:
